@@ -63,6 +63,21 @@ STYLES['dataflow'] = (
     'indices turned into zip / enumerate over the arrays themselves; temporary arrays renamed instead of rebinding the argument name (flat_A = A.reshape(...)); values threaded '
     'through small dataclasses / namedtuples. Keep every normalisation, floor, copy, transpose and reshape that exists - move them, wrap them, but do not drop or duplicate them.')
 
+STYLES['performance'] = (
+    'Apply 14 to 20 independent, realistic edits of the kind a maintainer makes under the headings "performance", "memory", "robustness" and "clean-up" - but CORRECT ones, '
+    'results unchanged - spread over as many of the listed functions as possible. Use for example: temporaries preallocated once and filled with out= (np.mean / np.sum / np.divide / '
+    'np.multiply / np.einsum(..., out=buf)) where the buffer is created with an EXPLICIT floating / complex dtype and the right shape (np.empty(shape, dtype=np.result_type(x, np.float64)) '
+    'or similar) so nothing is truncated; in-place arithmetic ONLY on arrays the function itself created (never on arguments or views of arguments); python loops replaced by '
+    'vectorised indexing / broadcasting / einsum and the reverse where clearer; repeated sub-expressions computed once; pure helpers (results are ints / tuples / strings, or arrays that '
+    'are copied before use) memoised with functools.lru_cache; helper functions extracted for a normalisation that occurs twice, KEEPING the dtype-aware floor '
+    '(np.finfo(x.dtype).tiny / eps) exactly as it is; conditional fast paths that are exactly equivalent (e.g. skip a multiplication by an exponent that equals 1, skip a transpose of a '
+    'one-dimensional view) with the condition tested on the RIGHT variable; shapes / axis tuples normalised once at the top of a function; model objects rebuilt through their '
+    'constructor (never assigned to); explicit conjugate-transposes written as x.conj().swapaxes(-1, -2) / np.conj(np.swapaxes(x, -1, -2)) / einsum letter order; solve(A, b) <-> '
+    'inv(A) @ b only where the library already does that; sums over "all but one" kept as sums (do NOT rewrite them as total minus own); distances kept as norms of differences (do '
+    'NOT expand |a - b|^2); np.asarray / np.ascontiguousarray inserted where a copy is not needed and .copy() kept wherever the result is modified afterwards; reductions with '
+    'keepdims=True <-> explicit None indexing; assert messages, comments and docstrings updated to match. Keep every normalisation, floor, copy, transpose, reshape and guard that '
+    'exists - move them, wrap them, but do not drop, duplicate or weaken them.')
+
 TEMPLATE = '''You are helping to evaluate a static-analysis based verification tool for the Python library fgnt/pb_bss (EM mixture models, beamformers, permutation alignment, masks, metrics). The tool must NOT raise alarms on code whose behaviour is unchanged. Your job is to act as a careful maintainer who REFACTORS code WITHOUT changing behaviour, so that we can test the tool for false alarms.
 
 Work ONLY inside your own scratch git worktree of the library: {wt} (package directory {wt}/pb_bss). Do NOT read or write anything under /verif or /repo. Do not commit. Never use `git stash` (it is shared between worktrees).
